@@ -601,3 +601,57 @@ package exec
 //@   uses values
 //@   requires len(args) == 1 && args[0] != nil
 //@   ensures err == nil && r == VNum(toNum(args[0]))
+
+// ---------- string -> number (exec/result.go) ----------
+
+// strconv.ParseFloat is assumed to return, for a string with XPath number syntax, the correctly rounded
+// double (an infinity together with a range error when the numeral is too large), never NaN.
+//@ extern strconv.ParseFloat(s, bits) (r, err)
+//@   pure
+//@   uses strnum
+//@   ensures bits == 64 && numSyntax(s) ==> r == decval(s) && !isNaN(r) && (err != nil ==> isInf(r))
+
+//@ func isXmlSpace(c) (r)
+//@   pure
+//@   property C04 C07
+//@   uses strnum
+//@   ensures r == isXmlSp(c)
+
+//@ func trimXmlSpace(s) (r)
+//@   property C04 C07 C13 C15
+//@   uses strnum
+//@   ensures r == xmlTrim(s)                                                  @xml-whitespace-only
+//@   loop 0
+//@     invariant 0 <= start && start <= end && end == len(s)
+//@     invariant forall j Int :: 0 <= j && j < start ==> isXmlSp(s[j])
+//@     decreases end - start
+//@   loop 1
+//@     invariant 0 <= start && start <= end && end <= len(s)
+//@     invariant forall j Int :: 0 <= j && j < start ==> isXmlSp(s[j])
+//@     invariant start == len(s) || !isXmlSp(s[start])
+//@     invariant forall j Int :: end <= j && j < len(s) ==> isXmlSp(s[j])
+//@     decreases end - start
+
+//@ func isNumberSyntax(s) (r)
+//@   property C04 C13 C15
+//@   uses strnum
+//@   ensures r == numSyntax(s)                                                @xpath-number-syntax
+//@   loop 0
+//@     invariant numStart(s) <= i && i <= len(s) && digits >= 0 && dots >= 0
+//@     invariant forall j Int :: numStart(s) <= j && j < i ==> isDigit(s[j]) || s[j] == 46
+//@     invariant digits > 0 ==> exists j Int :: numStart(s) <= j && j < i && isDigit(s[j])
+//@     invariant digits == 0 ==> forall j Int :: numStart(s) <= j && j < i ==> !isDigit(s[j])
+//@     invariant dots == 0 ==> forall j Int :: numStart(s) <= j && j < i ==> s[j] != 46
+//@     invariant dots == 1 ==> exists p Int :: numStart(s) <= p && p < i && s[p] == 46 && forall j Int :: numStart(s) <= j && j < i && j != p ==> s[j] != 46
+//@     invariant dots >= 2 ==> exists p Int, q Int :: numStart(s) <= p && p < q && q < i && s[p] == 46 && s[q] == 46
+//@     decreases len(s) - i
+
+//@ func getStringNumber(str) (r)
+//@   property C04 C05 C06 C13 C15
+//@   uses strnum
+//@   ensures r == xpnum(str)                                                  @xpath-number
+
+//@ func String.Number(n) (r)
+//@   property C04
+//@   uses strnum
+//@   ensures r == toNum(VStr(n))
